@@ -232,8 +232,8 @@ def _run_history(task, seq, split, out, only=False):
             out["violations"].append(violation(PID, case, dict(fields, sub="raised"), f"raised: calibrating the last module alone raised {type(e).__name__}: {str(e)[:160]}"))
 
 
-def _histories(tier):
-    L = 3 if tier == "quick" else 4
+def _histories(tier, dtname="float32"):
+    L = 3 if (tier == "quick" or dtname != "float32") else 4
     for n in range(1, L + 1):
         for seq in itertools.product(KINDS, repeat=n):
             yield seq, None
@@ -244,7 +244,7 @@ def _histories(tier):
 def _run(task):
     out = {"evals": 0, "nontrivial": 0, "points": 0, "calls": 0, "violations": [], "samples": [], "counters": {}}
     only = task.get("only")
-    for seq, split in _histories(task["tier"]):
+    for seq, split in _histories(task["tier"], task["dt"]):
         if only and only != [list(seq), split]:
             continue
         out["evals"] += 1
